@@ -8,15 +8,16 @@ PROP = dict(
         "hook pkg/core/mpt/verif_hooks_c11.go (build tag verif, read-only copy of the refcount map)",
     ],
     assumptions=[
-        "interface hypothesis on the concrete trie (clause 2 of evs_ok; to be discharged by the C10 model coq/Trie: refcount bookkeeping of Put/Delete/PutBatch): for every hash the addRef/removeRef calls of a block net to occurrences(new trie) - occurrences(trie held in memory); checked on the real code for every generated block through the hook",
-        "hash identifies content: every reference operation carries the serialization nb(h) of the node its hash names, and a node's bytes name its children (wf) - i.e. no double-SHA-256 collision among the nodes that occur",
+        "the general theorems carry the interface hypothesis evs_ok (per block: the reference operations net, for every hash, to occurrences(new trie) - occurrences(trie held in memory)); coq/TrieRC/Concrete.v DISCHARGES it against the concrete trie of C10 for Trie.Put, Trie.Delete and Trie.PutBatch with the addRef/removeRef placements of trie.go and batch.go transcribed as traces (C11_put_refs_net, C11_delete_refs_net, C11_put_batch_refs_net, C11_interface_discharged), so C11_latest_exact_concrete / C11_gc_mode_exact_concrete have no reference-counting hypothesis; that the transcribed placements are the calls the Go code makes is tied by the harness (hook: real deltas of every generated block = change of occurrences counted by an independent walker)",
+        "hash identifies content: a node is named by its hash and an operation carries that node's serialization (nb = identity on the hash token; wf for reading back) - i.e. no double-SHA-256 collision among the nodes that occur",
         "counters are unbounded integers in the model (Go: int32)",
         "a GC pass is never asked for a height above the current one (blockchain.go tryRunGC: target = persisted height - MaxTraceableBlocks)",
-        "the theorems speak about the module as it stands since the repair of finding F30 (/repo commit cb1c052: trie re-read from the committed root after a dropped block); the pre-fix semantics is kept in the model (reset=false) only to record the refutation C11_uncommitted_harmless_before_fix_refuted",
+        "the theorems speak about the module as it stands since the repair of finding F30 (/repo commit cb1c052); the pre-fix semantics is kept in the model (reset=false) only to record the refutation C11_uncommitted_harmless_before_fix_refuted",
+        "concrete layer: operations have well-formed arguments (nibble paths; batches sorted and duplicate-free, as MapToMPTBatch builds them); tries are expanded (HashRef children = collapsed sub-tries are outside put/delete/put_batch of the C10 model: Flush/Collapse/reload are the identity there)",
     ],
     modelled="the trie is abstract (a tree of hashes with child lists); the placement of addRef/removeRef inside trie.go/batch.go is not modelled but observed (hook) and checked against the walker's recount on every block; in-place aliasing of byte slices (H6) is outside the value-semantics model and is checked by the harness only",
 )
 META = dict(
-    text="Proved in Coq for every sequence of committed blocks, dropped blocks, GC passes and Collapse calls in each trie mode: ModeLatest table = exactly the occurrences of the latest trie; ModeGC: active = occurrences, left-at-block-b = inactive with stamp b, nothing else; ModeAll complete; every retained trie reads back node for node; GC(G) removes nothing a height >= G needs; any root reads as NotFound or as exactly its own tree; Flush is independent of map order and never panics. The model is tied to the real mpt.Trie and stateroot.Module by whole-history correspondence with an independent recount. Dropped blocks are harmless (finding F30, reproduced on the real stateroot.Module, was repaired in /repo; the pre-fix semantics is kept refuted as a record). Partial: the concrete trie is abstracted behind one interface hypothesis (net reference change = change of occurrences), checked at run time on every block.",
+    text="Proved in Coq for every sequence of committed blocks, dropped blocks, GC passes and Collapse calls in each trie mode: ModeLatest table = exactly the occurrences of the latest trie; ModeGC: active = occurrences, left-at-block-b = inactive with stamp b, nothing else; ModeAll complete; every retained trie reads back node for node; GC(G) removes nothing a height >= G needs; any root reads as NotFound or as exactly its own tree; Flush is independent of map order and never panics. The model is tied to the real mpt.Trie and stateroot.Module by whole-history correspondence with an independent recount. Dropped blocks are harmless (finding F30, reproduced on the real stateroot.Module, was repaired in /repo; the pre-fix semantics is kept refuted as a record). The interface hypothesis (net reference change of a block = change of occurrences) is proved against the concrete trie of C10 for Put, Delete and PutBatch with the real addRef/removeRef placements, and still checked at run time on every generated block.",
     note="Trusted: Coq kernel and vm_compute, the hand-written model (tied by correspondence, not by translation), the Go harness with its own node parser, the orchestration script. Assumed: no hash collision among occurring nodes; the interface hypothesis on the concrete trie (C10).",
 )
